@@ -104,3 +104,41 @@ M("c17-reapply-skip-slice", "C17", SEL, "                slice=kwargs.get(\"slic
 M("c17-reapply-copy", "C17", SEL, "        result = target.engine.conform(target)\n", "        result = dataclasses.replace(self, target=target)\n", rule="R17.3")
 M("c17-ctor-swapped", "C17", SEL, "            sort=sort,\n            slice=slice,\n            skip_to=skip_to,", "            sort=Sort(),\n            slice=slice,\n            skip_to=skip_to,", rule="R17.3")
 M("c17-twin-sort-guard", "C17", SEL, "        if sort.terms:\n", "        if len(sort.terms) > 0:\n", expect="silent")
+
+# ---------------------------------------------------------------- C04 / C03
+SLICE = "_operations/_slice.py"
+SORT = "_operations/_sort.py"
+SELN = "_operations/_selection.py"
+DEDUP = "_operations/_deduplication.py"
+UN = "_unary_operation.py"
+C34 = ("C04", "C03")
+M("c04-slice-not-count-dependent", C34, SLICE, "    def is_count_dependent(self) -> bool:\n        # Docstring inherited.\n        return True", "    def is_count_dependent(self) -> bool:\n        # Docstring inherited.\n        return False", rule="R04.1")
+M("c04-slice-not-order-dependent", C34, SLICE, "    def is_order_dependent(self) -> Literal[True]:\n        # Docstring inherited.\n        return True", "    def is_order_dependent(self) -> Literal[True]:\n        # Docstring inherited.\n        return False", rule="R04.1")
+M("c04-dedup-drop-count-guard", C34, DEDUP, "        if current.operation.is_count_dependent:\n            return UnaryCommutator(\n                first=None,\n                second=current.operation,\n                done=False,\n                messages=(f\"{current.operation} is count-dependent\",),\n            )\n", "", rule="R04.1")
+M("c04-dedup-drop-columns-guard", C34, DEDUP, "        if not current.columns >= current.target.columns:", "        if False:", rule="R04.1")
+M("c04-selection-second-self", C34, SELN, "        if current.operation.is_count_dependent:\n            return UnaryCommutator(\n                first=None,\n                second=current.operation,", "        if current.operation.is_count_dependent:\n            return UnaryCommutator(\n                first=None,\n                second=self,", rule="R04.2")
+M("c04-selection-fail-done", C34, SELN, "                done=False,\n                messages=(f\"{current.operation} is count-dependent\",),", "                done=True,\n                messages=(f\"{current.operation} is count-dependent\",),", rule="R04.2")
+M("c04-calc-unwidened", C34, CALC, "            (\n                Projection(current.operation.columns | {self.tag})\n                if isinstance(current.operation, Projection)\n                else current.operation\n            ),", "            current.operation,", rule="R04.1")
+M("c04-sort-sort", C34, SORT, "        if isinstance(current.operation, Reordering):", "        if False:", rule="R04.1")
+M("c04-calc-tag-guard", C34, CALC, "        if self.tag in current.target.columns:", "        if False:", rule="R04.3")
+M("c04-calc-inputs-guard", C34, CALC, "        if not self.columns_required <= current.target.columns:", "        if not self.columns_required <= current.columns:", rule="R04.3")
+M("c04-slice-over-selection", C34, SLICE, "            case Projection() | Calculation():\n                return UnaryCommutator(first=self, second=current.operation)", "            case Projection() | Calculation() | Selection():\n                return UnaryCommutator(first=self, second=current.operation)", rule="R04.1")
+M("c04-join-over-dedup", C34, JOIN, "            case Deduplication():\n                # A Join only commutes past Deduplication if the fixed relation\n                # has unique rows, which is not something we can check right\n                # now.\n                return UnaryCommutator(\n                    first=None,\n                    second=current.operation,\n                    done=False,\n                    messages=(\"join-deduplication commutation is not supported\",),\n                )\n", "", rule="R04.1")
+M("c04-join-unwidened-projection", C34, JOIN, "                    second=Projection(frozenset(self.applied_columns(current))),", "                    second=current.operation,", rule="R04.1")
+M("c04-proj-keeps-tag", C34, PROJ, "                    commuted_columns -= {tag}\n", "                    pass\n", rule="R04.3")
+M("c04-proj-drops-required", C34, PROJ, "                first=Projection(commuted_columns | current.operation.columns_required),", "                first=Projection(commuted_columns),", rule="R04.1")
+M("c04-proj-no-required-check", C34, PROJ, "        if not commuted_columns >= current.operation.columns_required:", "        if False:", rule="R04.1")
+M("c04-proj-elide-used-calc", C34, PROJ, "                if tag not in self.columns:\n                    return UnaryCommutator(first=self, second=Identity())", "                if True:\n                    return UnaryCommutator(first=self, second=Identity())", rule="R04.1")
+M("c04-twin-isinstance", C34, SLICE, "        match current.operation:\n            case Projection() | Calculation():\n                return UnaryCommutator(first=self, second=current.operation)\n            case _:\n                return UnaryCommutator(", "        if isinstance(current.operation, (Projection, Calculation)):\n            return UnaryCommutator(first=self, second=current.operation)\n        else:\n                return UnaryCommutator(", expect="silent")
+M("c04-twin-sort-guard-merged", C34, SORT, "        if isinstance(current.operation, Reordering):", "        if isinstance(current.operation, (Reordering,)) or False:", expect="silent")
+M("c03-apply-always-append", "C03", UN, "        if not done:\n            result = result.engine.append_unary(operation, result)\n        return result", "        result = result.engine.append_unary(operation, result)\n        return result", rule="R03.1")
+M("c03-apply-no-transfer", "C03", UN, "                if transfer:\n                    result = result.transferred_to(preferred_engine)\n                elif require_preferred_engine:", "                if transfer:\n                    pass\n                elif require_preferred_engine:", rule="R03.1")
+M("c03-apply-require-ignored", "C03", UN, "                elif require_preferred_engine:\n                    raise EngineError(", "                elif require_preferred_engine and backtrack:\n                    raise EngineError(", rule="R03.1")
+M("c03-apply-transfer-target", "C03", UN, "                    result = result.transferred_to(preferred_engine)", "                    result = result.transferred_to(target.engine)", rule="R03.1")
+M("c03-apply-wrong-engine", "C03", UN, "            result = result.engine.append_unary(operation, result)", "            result = target.engine.append_unary(operation, result)", rule="R03.1")
+M("c03-backtrack-done-or", "C03", IT, "                        done and commutator.done,", "                        done or commutator.done,", rule="R03.2")
+M("c03-backtrack-rebuild-target", "C03", IT, "                        result = commutator.second._finish_apply(upstream)", "                        result = commutator.second._finish_apply(target)", rule="R03.2")
+M("c03-backtrack-fail-tree", "C03", IT, "                if commutator.first is None:\n                    return tree, commutator.done, commutator.messages", "                if commutator.first is None:\n                    return target, commutator.done, commutator.messages", rule="R03.2")
+M("c03-backtrack-first-op", "C03", IT, "self.backtrack_unary(commutator.first, target, preferred)", "self.backtrack_unary(operation, target, preferred)", rule="R03.2")
+M("c03-backtrack-transfer-finish", "C03", IT, "return transfer.reapply(operation.apply(target)), True, ()", "return transfer.reapply(operation._finish_apply(target)), True, ()", rule="R03.2")
+M("c03-twin-apply-rename", "C03", UN, "        done = False\n        result = target\n", "        result = target\n        done = False\n", expect="silent")
